@@ -15,10 +15,11 @@ var defaultFeatures = make(map[string]Feature)
 
 func findFeatures(featureNames []string) ([]Feature, error) {
 	required := make(map[string]Feature)
+	all := false
 	for _, name := range featureNames {
 		if name == "all" {
-			required = defaultFeatures
-			break
+			all = true
+			continue
 		}
 
 		feat, ok := defaultFeatures[name]
@@ -26,6 +27,9 @@ func findFeatures(featureNames []string) ([]Feature, error) {
 			return nil, fmt.Errorf("unknown feature: %q", name)
 		}
 		required[name] = feat
+	}
+	if all {
+		required = defaultFeatures
 	}
 
 	type namefeat struct {
